@@ -104,8 +104,8 @@ func (block *CBlock) updateTop(changedCandidates []*Candidate) {
 		// some candidates unregistered. so maybe some normal nodes will become new candidates
 		// resort all candidates
 		block.Top.Rank(max_candidate_count, block.CandidateTrieDB.GetAll())
-	} else if newTop.Min().Total.Cmp(block.Top.Min().Total) >= 0 {
-		// the min votes become bigger, it means some old candidates get richer now.
+	} else if rankedAtOrBefore(newTop.Min(), block.Top.Min()) {
+		// the new min is ranked at or before the old min (votes desc, address asc), it means some old candidates get richer now.
 		// the other candidates whose vote is not changed, must not be in the top list. so we can just use the newTop
 		block.Top = newTop
 	} else {
@@ -114,6 +114,12 @@ func (block *CBlock) updateTop(changedCandidates []*Candidate) {
 		// resort all candidates
 		block.Top.Rank(max_candidate_count, block.CandidateTrieDB.GetAll())
 	}
+}
+
+// rankedAtOrBefore compares two candidates in the ranking order: votes descending, ties by address ascending
+func rankedAtOrBefore(a *Candidate, b *Candidate) bool {
+	cmp := a.Total.Cmp(b.Total)
+	return cmp > 0 || (cmp == 0 && bytes.Compare(a.Address[:], b.Address[:]) <= 0)
 }
 
 func (block *CBlock) Ranking(voteLogs types.ChangeLogSlice) {
